@@ -318,7 +318,9 @@ func (smf *SMFailed) UnmarshalXML(d *xml.Decoder, start xml.StartElement) error 
 				err = d.DecodeElement(&xnwf, &tt)
 				smf.StreamErrorGroup = &xnwf
 			default:
-				return errors.New("error is unknown")
+				// Not a stream error condition (XEP-0198 uses stanza error conditions such
+				// as item-not-found here): skip it, the element still is a <failed/>.
+				err = d.Skip()
 			}
 			if err != nil {
 				return err
